@@ -198,6 +198,120 @@ func amplificationSeeds() []seed {
 	return out
 }
 
+// repetitionSeeds repeat the smallest legal unit of a container structure thousands of times: work and memory must
+// follow the length of the file, not the number of units (a fixed cost per unit that is large against the unit's size
+// breaks a bound that no single size or count field can break).
+var repetitionCache []seed
+
+func repetitionSeeds() []seed {
+	if repetitionCache != nil {
+		return repetitionCache
+	}
+	var out []seed
+	add := func(name, kind string, b []byte) {
+		out = append(out, seed{name: name, kind: kind, doc: &gen.Doc{B: b}, gen: true})
+	}
+	II := binary.LittleEndian
+	// the smallest Exif blocks: one out-of-line string; one embedded value and a pointer to a directory that is not there
+	tiny := func(variant int) []byte {
+		d := &gen.Doc{}
+		d.Str("II*\x00")
+		d.U32(II, 8, "", "")
+		switch variant {
+		case 0:
+			d.U16(II, 1, "", "")
+			d.U16(II, 0x0131, "", "")
+			d.U16(II, 2, "", "")
+			d.U32(II, 5, "", "")
+			d.U32(II, 26, "", "")
+			d.U32(II, 0, "", "")
+			d.Str("abcd\x00")
+		case 1:
+			d.U16(II, 2, "", "")
+			d.U16(II, 0x0112, "", "")
+			d.U16(II, 3, "", "")
+			d.U32(II, 1, "", "")
+			d.U32(II, 6, "", "")
+			d.U16(II, 0x8769, "", "")
+			d.U16(II, 4, "", "")
+			d.U32(II, 1, "", "")
+			d.U32(II, 38, "", "")
+			d.U32(II, 0, "", "")
+		}
+		return d.B
+	}
+	minBlock := gen.EncodeTIFF(gen.MinimalRecord(), gen.CanonicalLayout(), II, gen.AllDirs)
+	for vi, blk := range [][]byte{tiny(0), tiny(1), minBlock.B} {
+		var segs []gen.Seg
+		for i := 0; i < 3000; i++ {
+			segs = append(segs, gen.SegExif(&gen.Doc{B: blk}))
+		}
+		j, _ := gen.BuildJPEG(segs, true)
+		add(fmt.Sprintf("jpeg-3000-exif-segments-of-%d-bytes(%d)", len(blk), vi), "jpeg", j.B)
+	}
+	{
+		var segs []gen.Seg
+		for i := 0; i < 5000; i++ {
+			segs = append(segs, gen.SegXMP([]byte("<x:xmpmeta/>")))
+		}
+		j, _ := gen.BuildJPEG(segs, true)
+		add("jpeg-5000-minimal-xmp-segments", "jpeg", j.B)
+		segs = nil
+		for i := 0; i < 20000; i++ {
+			segs = append(segs, gen.Seg{Marker: 0xFE, Payload: nil, Kind: "com"})
+		}
+		j, _ = gen.BuildJPEG(append(segs, gen.SegExif(minBlock)), true)
+		add("jpeg-20000-empty-comments-then-exif", "jpeg", j.B)
+	}
+	{ // CR3 whose metadata box holds thousands of CMT boxes
+		for _, blk := range [][]byte{tiny(0), minBlock.B} {
+			p := gen.CR3FromRecord(gen.MinimalRecord(), gen.CanonicalLayout(), II)
+			top := gen.CR3(p, 0)
+			metaU := top[1].Children[0]
+			for i := 0; i < 3000; i++ {
+				metaU.Children = append(metaU.Children, &gen.Box{Type: fmt.Sprintf("CMT%d", 1+i%4), Payload: &gen.Doc{B: blk}})
+			}
+			add(fmt.Sprintf("cr3-3000-cmt-boxes-of-%d-bytes", len(blk)), "cr3", gen.EncodeBoxes(top).B)
+		}
+	}
+	{ // item-based HEIF / AVIF whose meta box holds thousands of payload-less children of every handled type
+		for _, typ := range []string{"hdlr", "iinf", "iref", "pitm", "iloc", "idat", "iprp", "free", "zzzz"} {
+			for _, major := range []string{"avif", "heic"} {
+				boxes := avifBoxes(gen.EncodeTIFF(gen.MinimalRecord(), gen.CanonicalLayout(), II, gen.AllDirs), major)
+				var metaB *gen.Box
+				for _, b := range boxes {
+					if b.Type == "meta" {
+						metaB = b
+					}
+				}
+				if metaB == nil {
+					continue
+				}
+				extra := make([]*gen.Box, 60000)
+				for i := range extra {
+					extra[i] = &gen.Box{Type: typ}
+				}
+				metaB.Children = append(extra, metaB.Children...)
+				kind := "avif"
+				if major == "heic" {
+					kind = "heif"
+				}
+				add(fmt.Sprintf("%s-meta-with-60000-empty-%s-boxes", major, typ), kind, gen.EncodeBoxes(boxes).B)
+			}
+		}
+	}
+	{ // PNG with thousands of empty ancillary chunks before the eXIf chunk
+		var before []gen.Chunk
+		for i := 0; i < 20000; i++ {
+			before = append(before, gen.Chunk{Type: "tEXt"})
+		}
+		d, _ := gen.BuildPNG(before, minBlock, nil)
+		add("png-20000-empty-chunks-then-exif", "png", d.B)
+	}
+	repetitionCache = out
+	return out
+}
+
 // jpegStructureSeeds are JPEG streams whose marker structure is unusual: bare SOI / EOI markers between the
 // segments (nested and closed images), metadata after an EOI, stand-alone markers (TEM, RSTn) that carry no
 // length.  What the scanner makes of them is its business; it must make the same of them whatever it scanned
